@@ -581,7 +581,18 @@ func (p *PsUnpacker) onAvPacketWrap(packet *base.AvPacket) {
 	p.onAvPacketWrapCount++
 	//nazalog.Debugf("PsUnpacker > onAvPacketWrap. packet=%s", packet.DebugString())
 	if packet.IsVideo() {
-		typ := h2645.ParseNaluType(packet.PayloadType == base.AvPacketPtAvc, packet.Payload[4])
+		// payload以start code开头，start code可能是3字节(00 00 01)，也可能是4字节甚至更多个0，
+		// 不能固定认为nalu header在第5个字节
+		pos := 0
+		for pos < len(packet.Payload) && packet.Payload[pos] == 0 {
+			pos++
+		}
+		pos++
+		if pos >= len(packet.Payload) {
+			// start code后面没有数据
+			return
+		}
+		typ := h2645.ParseNaluType(packet.PayloadType == base.AvPacketPtAvc, packet.Payload[pos])
 		//nazalog.Debugf("PsUnpacker onAvPacketWrap. type=%d", typ)
 		// TODO(chef): [opt] 等待sps等信息再开始回调，这个逻辑不完整简化了 202209
 		if p.waitSpsFlag {
